@@ -179,6 +179,16 @@ class SymEx:
         self._go(p, start)
         return self.paths
 
+    def run_from(self, path, start, stop_blocks=(), stop_at_call=None):
+        """continue the enumeration from an existing path state (its knowledge is kept, its block history is reset)"""
+        self.stop_blocks = set(stop_blocks)
+        self.stop_at_call = stop_at_call
+        self.paths = []
+        q = path.fork()
+        q.blocks = []
+        self._go(q, start)
+        return self.paths
+
     def _finish(self, path, why, b):
         path.end = why
         path.end_block = b
@@ -236,6 +246,10 @@ class SymEx:
                 continue
             if k == "switch":
                 e = self.operand(path, t[4])
+                neg = False
+                while e[0] == "un" and e[1] == "not" and t[5] == "bool":
+                    e = e[2]
+                    neg = not neg
                 cv = const_value(e)
                 targets = t[6]
                 if cv is None:
@@ -248,6 +262,8 @@ class SymEx:
                                 cv = 1
                             break
                 if cv is not None:
+                    if neg:
+                        cv = 0 if int(cv) else 1
                     nb = t[7]
                     for v, tb in targets:
                         if int(v) == int(cv):
@@ -256,17 +272,24 @@ class SymEx:
                     continue
                 # fork
                 seen_vals = []
-                first = True
-                branches = [(int(v), tb) for v, tb in targets] + [(None, t[7])]
-                for v, tb in branches[:-1]:
+                branches = [(int(v), tb) for v, tb in targets]
+                for v, tb in branches:
                     q = path.fork()
-                    q.conds.append((e, v, True))
+                    vv = (0 if v else 1) if neg else v
+                    q.conds.append((e, vv, True))
+                    q.events.append(("cond", e, vv, True))
                     seen_vals.append(v)
                     self._go(q, tb)
                 # otherwise branch continues on this path object
                 if fn.bb[t[7]]["t"][KIND] == "unreachable" and not fn.bb[t[7]]["s"]:
                     return  # exhaustive switch, no otherwise path
-                path.conds.append((e, tuple(seen_vals), False))
+                if neg and t[5] == "bool" and tuple(seen_vals) == (0,):
+                    # not(x) != 0  <=>  x == 0
+                    path.conds.append((e, 0, True))
+                    path.events.append(("cond", e, 0, True))
+                else:
+                    path.conds.append((e, tuple(seen_vals), False))
+                    path.events.append(("cond", e, tuple(seen_vals), False))
                 b = t[7]
                 continue
             return self._finish(path, "diverge", b)
